@@ -45,8 +45,9 @@ func Program(rt *rapid.T, spec ProgramSpec, corpusPaths []string) *prog.Program 
 
 // FrontSpec says which schedule dimensions and fault kinds are in play.
 type FrontSpec struct {
-	Faults      []string // allowed kinds
+	Faults      []string // allowed fault kinds
 	MaxFaults   int
+	Constructs  []string // XGo-only constructs injected between statements (not faults)
 	FileAssign  bool
 	HandlerFlip bool
 	Writes      bool // files written mid-build and in scrambled order at the end
@@ -86,6 +87,11 @@ func Front(rt *rapid.T, spec FrontSpec) *run.Front {
 		// when the file is first written, so declarations made afterwards cannot be taken
 		// into account - a use the property does not cover)
 		f.Rewrites = rapid.IntRange(0, 2).Draw(rt, "rewrites")
+		if rapid.IntRange(0, 2).Draw(rt, "late_force") == 0 {
+			for i := rapid.IntRange(1, 3).Draw(rt, "nlate"); i > 0; i-- {
+				f.LateForce = append(f.LateForce, rapid.IntRange(0, 3).Draw(rt, "lfile"), rapid.IntRange(0, 6).Draw(rt, "lpath"))
+			}
+		}
 		if rapid.Bool().Draw(rt, "reorder_writes") {
 			f.WriteOrder = []int{rapid.IntRange(0, 3).Draw(rt, "wrot"), rapid.IntRange(0, 1).Draw(rt, "wrev")}
 		}
@@ -94,6 +100,17 @@ func Front(rt *rapid.T, spec FrontSpec) *run.Front {
 		f.HandlerReturns = rapid.Bool().Draw(rt, "handler_returns")
 	}
 	f.NoSkipConst = rapid.IntRange(0, 4).Draw(rt, "noskip") == 0
+	if len(spec.Constructs) > 0 && rapid.IntRange(0, 2).Draw(rt, "constructs") != 0 {
+		n := rapid.IntRange(1, 4).Draw(rt, "nconstructs")
+		for i := 0; i < n; i++ {
+			f.Faults = append(f.Faults, run.Fault{
+				Unit: rapid.IntRange(0, 30).Draw(rt, "cunit"),
+				Stmt: rapid.IntRange(0, 5).Draw(rt, "cstmt"),
+				Kind: rapid.SampledFrom(spec.Constructs).Draw(rt, "ckind"),
+				Arg:  rapid.IntRange(0, 11).Draw(rt, "carg"),
+			})
+		}
+	}
 	if len(spec.Faults) > 0 && rapid.IntRange(0, 3).Draw(rt, "faulty") != 0 {
 		n := rapid.IntRange(1, spec.MaxFaults).Draw(rt, "nfaults")
 		for i := 0; i < n; i++ {
@@ -101,7 +118,7 @@ func Front(rt *rapid.T, spec FrontSpec) *run.Front {
 				Unit: rapid.IntRange(0, 30).Draw(rt, "funit"),
 				Stmt: rapid.IntRange(0, 5).Draw(rt, "fstmt"),
 				Kind: rapid.SampledFrom(spec.Faults).Draw(rt, "fkind"),
-				Arg:  rapid.IntRange(0, 7).Draw(rt, "farg"),
+				Arg:  rapid.IntRange(0, 11).Draw(rt, "farg"),
 			})
 		}
 	}
@@ -161,6 +178,12 @@ func SimplifyFront(f *run.Front) []*run.Front {
 	}
 	if f.Rewrites > 0 {
 		add(func(c *run.Front) { c.Rewrites = 0 })
+	}
+	if len(f.LateForce) > 0 {
+		add(func(c *run.Front) { c.LateForce = nil })
+		if len(f.LateForce) > 2 {
+			add(func(c *run.Front) { c.LateForce = append([]int(nil), c.LateForce[:2]...) })
+		}
 	}
 	if len(f.WriteOrder) > 0 {
 		add(func(c *run.Front) { c.WriteOrder = nil })
